@@ -165,15 +165,23 @@ def _step_replay(D, N, C, npar, mkA, mkB):
             v = model.get(n)
             return float(v) if isinstance(v, F) else d
 
-        L, dt = g("L", 1.3), g("dt", 0.02)
-        p = jnp.asarray([g(f"p_{k}", 0.3 + 0.1 * k) for k in range(npar)])
-        A, B = mkA(L, dt, p), mkB(L, dt, p)
         rng = np.random.default_rng(0)
         u = jnp.asarray(rng.normal(size=(C,) + (N,) * D)) * 0.1
-        a, b = A(u), B(u)
-        e = float(jnp.max(jnp.abs(a - b)))
-        same = type(A._integrator) is type(B._integrator)
-        return {"reproduced": (e > 1e-7) or not same, "detail": f"one step of the two steppers differs by {e:.3g} at L={L}, dt={dt}, p={np.asarray(p).tolist()}; same integrator class: {same}"}
+        tried = []
+        # the model's point first; the Ackermannised exp leaves L, dt and p unconstrained, so follow with fixed stress points
+        for L, dt, p in [(g("L", 1.3), g("dt", 0.02), [g(f"p_{k}", 0.3 + 0.1 * k) for k in range(npar)]), (6.0, 0.01, [0.3 + 0.1 * k for k in range(npar)]), (20.0, 0.1, [0.7 - 0.1 * k for k in range(npar)])]:
+            p = jnp.asarray(p)
+            A, B = mkA(L, dt, p), mkB(L, dt, p)
+            a, b = A(u), B(u)
+            same = type(A._integrator) is type(B._integrator)
+            if not (bool(jnp.all(jnp.isfinite(a))) and bool(jnp.all(jnp.isfinite(b)))):
+                tried.append(f"non-finite at L={L}, dt={dt}")
+                continue
+            e = float(jnp.max(jnp.abs(a - b)))
+            tried.append(f"{e:.3g} at L={L}, dt={dt}, p={np.asarray(p).tolist()}")
+            if e > 1e-7 * max(1.0, float(jnp.max(jnp.abs(a)))) or not same:
+                return {"reproduced": True, "detail": f"one step of the two steppers differs by {tried[-1]}; same integrator class: {same}"}
+        return {"reproduced": False, "detail": "one step of the two steppers: " + "; ".join(tried)}
 
     return replay
 
